@@ -130,6 +130,9 @@ func effectiveKeyOv(spec RenderSpec, heavyOverwritten bool) string {
 		if (spec.Via == ViaAuto || spec.Via == ViaAutoFn) && (name == "custom" || name == "derived" || name == "boxless-inner") {
 			name = "utf8-heavy"
 		}
+		if (spec.Via == ViaAuto || spec.Via == ViaAutoFn) && name == "empty-value" {
+			name = unknownDecoName
+		}
 		if (spec.Via == ViaAuto || spec.Via == ViaAutoFn) && name == "utf8-heavy" && spec.Flags&2 != 0 {
 			byDefault = true
 		}
@@ -293,7 +296,8 @@ func (engC14) Gen(r *Rng, s *Script, idx int, tier string) {
 	}
 }
 
-func (engC14) Exec(s *Script, keepLog bool) *Result {
+func (engC14) Exec(s *Script, keepLog bool) (guarded *Result) {
+	defer guardExec("C14", &guarded)
 	w := NewWorld(s.Cfg("kind", 0), "utf8-light", nil, NewEventLog(keepLog))
 	res := &Result{}
 	type first struct {
